@@ -188,7 +188,8 @@ def _cfg_exec():
     # `delegate_future` is immutable on job records but mutable on RetryFuture: keep the two heap arrays apart
     cfg.field_alias[("RetryJob", "delegate_future")] = "RetryJob.delegate_future"
     cfg.stable |= {"RetryJob.delegate_future"}
-    cfg.protected.update({"_jobs": "_lock", "stop_retry": "_lock",
+    cfg.protected_all = {"stop_retry": "_lock"}      # RetryJob.stop_retry: written only with the executor lock held
+    cfg.protected.update({"_jobs": "_lock",
                           "$fstate": "_me_lock", "$fresult": "_me_lock", "$fexc": "_me_lock", "delegate_future": "_me_lock"})
     cfg.contracts["more_executors._impl.common._Future._me_invoke_callbacks"] = RecordCall()
 
@@ -238,6 +239,22 @@ def _cfg_exec():
     return cfg
 
 
+def _cfg_dcb():
+    cfg = _cfg_exec()
+
+    def on_stop_write(engine, st, fr, o, v):
+        # ghost: remember what the finished attempt's job said at the very moment the flag of another job is written
+        for (sid, J0, d, fut) in getattr(cfg, "inflight", []):
+            st.ghost["stop_writes"] = st.ghost.get("stop_writes", []) + [
+                (o.t, engine.to_val(st, v), st.get("stop_retry", Val.id(J0)), any(h[3] == "_lock" for h in st.held))]
+    cfg.ghost_hooks[("write", "stop_retry")] = on_stop_write
+    cfg.contracts["more_executors._impl.retry.RetryExecutor._pop_job"] = RecordCall()
+    cfg.contracts["more_executors._impl.retry.RetryExecutor._append_job"] = RecordCall()
+    from .c_future import fresh_bool
+    cfg.contracts["more_executors._impl.common._Future.cancel"] = RecordCall(ret_fn=fresh_bool)
+    return cfg
+
+
 def _setup_dcb(engine, st):
     ex = sym_inst(engine, st, "RetryExecutor", "executor")
     sid = Val.id(ex.t)
@@ -283,15 +300,24 @@ def _post_dcb(engine, st, ctx, out):
         return cl
     pol = [e for e in st.trace if e.kind == "call" and e.meth in ("should_retry", "sleep_time")]
     res = [e for e in st.trace if e.kind == "resolve"]
-    pops = [e for e in st.trace if e.kind == "popped"]
-    apps = [(i, e) for i, e in enumerate(st.trace) if e.kind == "mutate" and e.meth == "append" and "._append_job" in (e.site or "")]
+    # _pop_job / _append_job are under their own contracts (units below): remove-if-present + gauge dec, append + gauge inc
+    class _E(object):
+        def __init__(self, e):
+            self.args = [e.args[1], None]
+            self.held = e.held
+    pops = [_E(e) for e in st.trace if e.kind == "repo-call" and e.meth.endswith("._pop_job")]
+    apps = [(i, _E(e)) for i, e in enumerate(st.trace) if e.kind == "repo-call" and e.meth.endswith("._append_job")]
     sets = [i for i, e in enumerate(st.trace) if e.kind == "event-set"]
-    qdec = [e for e in st.trace if e.kind == "metric" and e.callee == "RETRY_QUEUE" and e.meth == "dec"]
-    qinc = [e for e in st.trace if e.kind == "metric" and e.callee == "RETRY_QUEUE" and e.meth == "inc"]
+    qdec = pops
+    qinc = [a for _, a in apps]
     if any(a == "delegate_future.cancelled()" and b for a, b in st.decisions):
         cl.append(("cancelled attempt: the policy is not consulted and nothing is re-submitted", "PC", z3.BoolVal(not pol and not apps), ["C05", "C06"]))
         cl.append(("cancelled attempt: its job record is dropped (no reference to a finished attempt is kept)", "PC",
-                   z3.BoolVal(len(pops) == 1 and len(qdec) == 1), ["C12", "C20"]))
+                   z3.And(z3.BoolVal(len(pops) == 1 and len(qdec) == 1), pops[0].args[0] == ctx["J0"].t if pops else False), ["C12", "C20"]))
+        canc = [(i, e) for i, e in enumerate(st.trace) if e.kind == "repo-call" and e.meth.endswith("_Future.cancel")]
+        popi = [i for i, e in enumerate(st.trace) if e.kind == "repo-call" and e.meth.endswith("._pop_job")]
+        cl.append(("SP cancelled attempt: the retry future is cancelled too (never left pending), while its job is still registered", "SP",
+                   z3.And(z3.BoolVal(len(canc) == 1 and bool(popi) and canc[0][0] < popi[0]), canc[0][1].args[0] == ctx["fut"].t if canc else False), ["C03", "C06"]))
         return cl
     cl.append(("the policy is consulted with this job's attempt number (at most once per finished attempt)", "PC",
                z3.And([z3.And(e.callee == ctx["policy"], e.args[0] == ctx["attempt"], e.args[1] == ctx["d"].t) for e in pol] +
@@ -315,15 +341,16 @@ def _post_dcb(engine, st, ctx, out):
             slnum = z3.If(Val.is_intv(slv), z3.ToReal(Val.i(slv)), Val.r(slv))
             cl.append(("retry: next attempt is due at (clock when the attempt finished) + policy.sleep_time", "PC",
                        z3.Implies(z3.Or(Val.is_intv(slv), Val.is_realv(slv)), z3.And(z3.Not(Val.is_none(w)), wnum == clock[-1] + slnum)), ["C05"]))
-        cl.append(("retry: a cancel request seen so far is inherited by the new job (stop_retry)", "PC",
-                   z3.Implies(Val.b(st.get("stop_retry", jid)), Val.b(st.get("stop_retry", nj))), ["C06", "C05"]))
+        sw = [w for w in st.ghost.get("stop_writes", []) if z3.is_true(z3.simplify(Val.id(w[0]) == nj))]
+        cl.append(("retry: a cancel request is inherited by the new job: its stop_retry is copied from the finished job under the executor lock", "PC",
+                   z3.And(z3.BoolVal(len(sw) == 2 and sw[-1][3]), sw[-1][1] == sw[-1][2]) if len(sw) == 2 else z3.BoolVal(False), ["C06", "C05"]))
         cl.append(("W1 signal-after-change: the submit thread is woken after the idle job was queued", "WK",
                    z3.BoolVal(bool(sets) and max(sets) > apps[0][0]), ["C05", "C03"]))
         return cl
     # final branch: resolve the future with the attempt's own outcome
-    mine = [e for e in res if z3.is_true(z3.simplify(e.recv == fid))]
+    mine = res
     cl.append(("final attempt: the future is resolved exactly once, with this attempt's outcome (same objects)", "PC",
-               z3.And(z3.BoolVal(len(mine) == 1 and len(res) == 1),
+               z3.And(z3.BoolVal(len(res) == 1), res[0].recv == fid if res else False,
                       z3.If(Val.is_none(ctx["d_exc"]),
                             z3.And(z3.BoolVal(mine[0].meth == "set_result"), mine[0].args[0] == ctx["d_res"]) if mine else False,
                             z3.And(z3.BoolVal(mine[0].meth == "set_exception"), mine[0].args[0] == ctx["d_exc"]) if mine else False)), ["C05", "C01"]))
@@ -333,4 +360,4 @@ def _post_dcb(engine, st, ctx, out):
 
 
 UNITS.append(Unit("RetryExecutor._delegate_callback", "retry.RetryExecutor._delegate_callback",
-                  ["C05", "C01", "C02", "C03", "C06", "C12", "C18", "C20"], _setup_dcb, _post_dcb, cfg=_cfg_exec, self_cls="RetryExecutor"))
+                  ["C05", "C01", "C02", "C03", "C06", "C12", "C18", "C20"], _setup_dcb, _post_dcb, cfg=_cfg_dcb, self_cls="RetryExecutor"))
